@@ -199,4 +199,6 @@ def run(repo, tier):
             res.add(Finding('SPEC', tm.fullname, 'one fresh mask per position', tm.loc,
                             f'{cls_}.to_mask must append exactly ApertureMask(mask, bbox) once per position: masks that share one weight '
                             f'array see each other\'s in-place edits (area_overlap zeroes masked pixels in place)', {}))
+    from .common import run_generic_pack
+    run_generic_pack(repo, res, PROP, MODS)
     return res
